@@ -10,7 +10,7 @@ open HTree
 
 namespace Forest
 
-theorem removeConsolidate_true {f f' : Forest} {prev next : Option Nat}
+theorem fi_removeConsolidate_true {f f' : Forest} {prev next : Option Nat}
     (h : f.removeConsolidate prev next = (f', true)) :
     f.consolidation = true ∧ ∃ p n ps ns, prev = some p ∧ next = some n ∧
       f.textOf p = some ps ∧ f.textOf n = some ns := by
@@ -206,7 +206,7 @@ theorem exists_sibsOut {f : Forest} (hi : f.Inv) {c : Nat} (hc : c ∈ f.allHand
       have hxf : x ∈ f.allHandles := by
         unfold allHandles at hx ⊢
         rw [lc.eq]
-        simp only [mem_handlesList_plug, handlesList_append, handlesList_cons, List.mem_append,
+        simp only [mem_handlesList_plug, fi_handlesList_append, handlesList_cons, List.mem_append,
           handles_setValue, handlesList_nil, List.append_nil] at hx ⊢
         rcases hx with hx | hx | hx | hx | hx
         · exact Or.inl hx
@@ -224,7 +224,7 @@ theorem exists_sibsOut {f : Forest} (hi : f.Inv) {c : Nat} (hc : c ∈ f.allHand
       intro x hx
       unfold allHandles at hx ⊢
       rw [lc.eq]
-      simp only [mem_handlesList_plug, handlesList_append, handlesList_cons, List.mem_append,
+      simp only [mem_handlesList_plug, fi_handlesList_append, handlesList_cons, List.mem_append,
         handles_setValue, handlesList_nil, List.append_nil] at hx ⊢
       rcases hx with hx | hx | hx | hx | hx
       · exact Or.inl hx
@@ -246,9 +246,9 @@ theorem exists_sibsOut {f : Forest} (hi : f.Inv) {c : Nat} (hc : c ∈ f.allHand
         refine ⟨?_, ?_⟩
         · intro e
           apply hf.left
-          simp only [handlesList_append, handlesList_cons, handles_setValue, handlesList_nil,
+          simp only [fi_handlesList_append, handlesList_cons, handles_setValue, handlesList_nil,
             List.append_nil, List.mem_append]
-          exact Or.inr (e ▸ handle_mem_handles P)
+          exact Or.inr (e ▸ fi_handle_mem_handles P)
         · intro fr' hfr' e
           apply hf.path
           clear hmerge hgi lcg lcgP ndg
@@ -263,7 +263,7 @@ theorem exists_sibsOut {f : Forest} (hi : f.Inv) {c : Nat} (hc : c ∈ f.allHand
             · exact Or.inr (Or.inr (Or.inl (ih h1)))
       · intro hmem
         unfold allHandles at hmem
-        simp only [mem_handlesList_plug, handlesList_append, handlesList_cons, List.mem_append,
+        simp only [mem_handlesList_plug, fi_handlesList_append, handlesList_cons, List.mem_append,
           handles_setValue, handlesList_nil, List.append_nil] at hmem
         have hfN := lcN.fresh nd
         rcases hmem with hx | hx | hx | hx | hx
@@ -283,7 +283,7 @@ theorem exists_sibsOut {f : Forest} (hi : f.Inv) {c : Nat} (hc : c ∈ f.allHand
         | true =>
           exfalso
           apply hm
-          obtain ⟨hcons, p, n, ps, ns, hp, hn, tp, tn⟩ := removeConsolidate_true hr
+          obtain ⟨hcons, p, n, ps, ns, hp, hn, tp, tn⟩ := fi_removeConsolidate_true hr
           rcases List.eq_nil_or_concat path with hp0 | ⟨init, fr, hp0⟩
           · subst hp0
             rw [prevSibling_of_loc_nil lc nd] at hp; cases hp
